@@ -15,6 +15,7 @@ import os
 import sys
 
 import simgen
+import looprun
 from framework import fresh_import, REPO, VERIF, LeanLock
 from props import c10_e2e as E
 
@@ -417,7 +418,11 @@ def run(chk):
     chk.trusted += ['translator translate/py2lean.py (validated per slot each run by C06/C08)',
                     'translate/gen_tshift.py emits theorem statements only (a wrong statement cannot make a false theorem check)',
                     'hand models Model/TraceLoop.lean, Model/SnapResume.lean tied by correspondence each run',
-                    'C loop/handlers: differential execution only', 'zlib; RAM page codecs (C09)']
+                    'both trace loops are translated from source each run: CSimulator_trace (translate/cloop2lean.py, both builds; callbacks = output log; '
+                    'draw_screen = input stream) and the Python loop of Tracer.run (translate/pyloop2lean.py, loop core: the else branch of `if hasattr(simulator, \'trace\')`; '
+                    'prologue, C branch and epilogue checked by exact text); theorems for draw = None; validated each run against the real CSimulator.trace and against the '
+                    'loop\'s own statements run on the real Python simulators; the hand model cIter is proved to be the translated pass over the tracer port glue tstep '
+                    '(trace_model_pass_is_translated_pass); tstep (Tracer.read_port / PagingTracer.write_port) remains a hand model tied by correspondence', 'zlib; RAM page codecs (C09)']
     chk.assumptions += [
         'theorems are stated for a saved state satisfying `Saveable` (registers/state in range: C08 proves preservation for the closures '
         'its generic tactic closes; tracer fields in range; ROM intact: C08) - the hypothesis is explicit, satisfiability is witnessed',
@@ -431,8 +436,11 @@ def run(chk):
     trace, snapshot, simutils, pagingtracer, simulator, cmiosimulator = fresh_import(
         'skoolkit.trace', 'skoolkit.snapshot', 'skoolkit.simutils', 'skoolkit.pagingtracer', 'skoolkit.simulator', 'skoolkit.cmiosimulator')
     gen_ok = regen_c10(chk)
+    # the C trace loop (CSimulator_trace) and the C handlers it calls are translated from the tree under test too
+    # (translate/cloop2lean.py, c2lean.py): theorems c_trace_loop_derived_from_source, trace_model_pass_is_translated_pass
+    loop_ok = looprun.regen_c_side(chk) if gen_ok else False
     ok = chk.lake_build([PROPS, 'SkoolVerif.Prelude.Proto', 'SkoolVerif.Model.SnapResume', 'SkoolVerif.Gen.SimHandlers',
-                         'SkoolVerif.Gen.CmioHandlers']) if gen_ok else False
+                         'SkoolVerif.Gen.CmioHandlers'] + looprun.LOOP_DRIVER_MODULES) if gen_ok and loop_ok else False
     chk.audit(PROPS)
     if chk.thorough and ok:
         chk.leanchecker([PROPS])
@@ -447,6 +455,13 @@ def run(chk):
     if c_classes:
         classes += [('c-plain', c_classes[0]), ('c-cmio', c_classes[1])]
     t_build = chk.elapsed()
+    if gen_ok and loop_ok:
+        # both trace loops, translated from source, against the real code (one driver start)
+        batch = []
+        if c_classes:
+            looprun.trace_correspondence(chk, c_classes[0], c_classes[1], batch=batch)
+        looprun.py_trace_correspondence(chk, simulator.Simulator, cmiosimulator.CMIOSimulator, batch=batch)
+        looprun.flush(chk, batch)
     if ok:
         corr_resume(chk, tools, simutils, pagingtracer)
         corr_accept(chk, classes)
